@@ -1076,3 +1076,80 @@ Qed.
    while outstanding, a refusal only with 32768 outstanding, the assert never fires *)
 Theorem ids_spec ops : Forall op_in_range ops -> ids_check ops (snd (hm_run hm_new ops)) = true.
 Proof. intros H. apply ids_run_ok; [apply KInv_new|assumption]. Qed.
+
+(* ================================================================ the acceptor under the runner's skew *)
+
+Lemma filter_split_lift {A} (f : A -> bool) (l : list A) : forall a x b,
+  filter f l = a ++ x :: b ->
+  exists a' b', l = a' ++ x :: b' /\ filter f a' = a /\ filter f b' = b.
+Proof.
+  induction l as [|y l IH]; intros a x b H; cbn [filter] in H; [destruct a; discriminate|].
+  destruct (f y) eqn:Hy.
+  - destruct a as [|y0 a0]; cbn [app] in H; inversion H; subst.
+    + exists [], l. repeat split; reflexivity.
+    + destruct (IH _ _ _ H2) as (a' & b' & -> & Ha & Hb). exists (y0 :: a'), b'.
+      repeat split; [|assumption]. cbn [filter]. now rewrite Hy, Ha.
+  - destruct (IH _ _ _ H) as (a' & b' & -> & Ha & Hb). exists (y :: a'), b'.
+    repeat split; [|assumption]. cbn [filter]. now rewrite Hy.
+Qed.
+
+Lemma nth_error_mid {A} (a : list A) x b : nth_error (a ++ x :: b) (List.length a) = Some x.
+Proof. rewrite nth_error_app2 by lia. now rewrite Nat.sub_diag. Qed.
+
+(* the two sentences in "split" form *)
+Lemma trace_ok_no_share_split evs a b c sid m1 m2 : c02_trace_ok evs = true ->
+  evs = a ++ EIn sid m1 :: b ++ EIn sid m2 :: c -> In (EOut sid m1) b.
+Proof.
+  intros H ->.
+  assert (Hi := nth_error_mid a (EIn sid m1) (b ++ EIn sid m2 :: c)).
+  assert (Hj : nth_error (a ++ EIn sid m1 :: b ++ EIn sid m2 :: c) (List.length a + 1 + List.length b)
+               = Some (EIn sid m2)).
+  { rewrite nth_error_app2 by lia. replace (List.length a + 1 + List.length b - List.length a)%nat with (S (List.length b)) by lia.
+    cbn [nth_error]. apply nth_error_mid. }
+  destruct (trace_ok_no_share _ _ _ _ _ _ H ltac:(lia) Hi Hj) as (k & Hk & Hn).
+  rewrite nth_error_app2 in Hn by lia.
+  destruct (k - List.length a)%nat as [|k'] eqn:E; [lia|]. cbn [nth_error] in Hn.
+  rewrite nth_error_app1 in Hn by lia. eapply nth_error_In; eassumption.
+Qed.
+
+Lemma nth_error_split_two {A} (l : list A) i j x y : (i < j)%nat ->
+  nth_error l i = Some x -> nth_error l j = Some y ->
+  exists a b c, l = a ++ x :: b ++ y :: c.
+Proof.
+  intros Hij Hi Hj. destruct (nth_error_split _ _ Hi) as (a & r & -> & Hla).
+  rewrite nth_error_app2 in Hj by lia. destruct (j - List.length a)%nat as [|j'] eqn:E; [lia|].
+  cbn [nth_error] in Hj. destruct (nth_error_split _ _ Hj) as (b & c & -> & _). eauto.
+Qed.
+
+Lemma trace_ok_delivery_split evs m m' : c02_trace_ok evs = true -> In (EDone m (ORows m')) evs ->
+  m' = m /\ exists a b c sid, evs = a ++ EIn sid m :: b ++ EOut sid m :: c.
+Proof.
+  intros H Hin. apply In_nth_error in Hin as [k Hk].
+  destruct (trace_ok_delivery _ _ _ _ H Hk) as (Hm & i & j & sid & Hij & Hi & Hj).
+  split; [assumption|]. destruct (nth_error_split_two _ _ _ _ _ ltac:(lia) Hi Hj) as (a & b & c & E). eauto.
+Qed.
+
+(* The real history [tr] is not known: the peer's events are, in their order; the callers' events
+   are observed somewhere else in the list.  If the OBSERVATION is accepted, the REAL history
+   satisfies both sentences of the property (the second one literally; of the first one everything
+   but "the answer was sent before the caller returned", which no observer of time stamps can see). *)
+Theorem trace_skew_sound tr obs : observes tr obs -> c02_trace_ok obs = true ->
+  (forall a b c sid m1 m2, tr = a ++ EIn sid m1 :: b ++ EIn sid m2 :: c -> In (EOut sid m1) b) /\
+  (forall m m', In (EDone m (ORows m')) tr ->
+     m' = m /\ exists a b c sid, tr = a ++ EIn sid m :: b ++ EOut sid m :: c).
+Proof.
+  intros [Hf Hd] Hok. split.
+  - intros a b c sid m1 m2 ->.
+    rewrite filter_app in Hf. cbn [filter is_mock] in Hf. rewrite filter_app in Hf. cbn [filter is_mock] in Hf.
+    destruct (filter_split_lift _ _ _ _ _ Hf) as (a' & r' & Ho & Ha & Hr).
+    destruct (filter_split_lift _ _ _ _ _ Hr) as (b' & c' & -> & Hb & Hc). subst obs.
+    pose proof (trace_ok_no_share_split _ _ _ _ _ _ _ Hok eq_refl) as Hin.
+    assert (Hin' : In (EOut sid m1) (filter is_mock b')) by (apply filter_In; split; [assumption|reflexivity]).
+    rewrite Hb in Hin'. apply filter_In in Hin'. tauto.
+  - intros m m' Hin. apply (Hd _ eq_refl) in Hin.
+    destruct (trace_ok_delivery_split _ _ _ Hok Hin) as (Hm & a & b & c & sid & ->). split; [assumption|].
+    rewrite filter_app in Hf. cbn [filter is_mock] in Hf. rewrite filter_app in Hf. cbn [filter is_mock] in Hf.
+    symmetry in Hf.
+    destruct (filter_split_lift _ _ _ _ _ Hf) as (a' & r' & -> & Ha & Hr).
+    destruct (filter_split_lift _ _ _ _ _ Hr) as (b' & c' & -> & Hb & Hc). eauto.
+Qed.
